@@ -394,6 +394,12 @@ func aggregateResults(rs []*workerResult) aggregate {
 			a.faults[k] += v
 		}
 		for k, v := range r.Probes {
+			if strings.HasPrefix(k, "max-") {
+				if v > a.probes[k] {
+					a.probes[k] = v
+				}
+				continue
+			}
 			a.probes[k] += v
 		}
 		for k, v := range r.Extra {
